@@ -165,6 +165,13 @@ def cases(tier):
             out.append(program(pipe, [scaled(a)], tiny=True))
         for a, b in itertools.product(scripts[::2], scripts[::3]):
             out.append(program(pipe, [scaled(a), scaled(b)], tiny=True))
+    # a transfer with a practically unlimited own limit joins and leaves while small-limit transfers are active
+    for pipe in ('p2', 'p3'):
+        for huge in (1e18, 2.0 ** 60):
+            trio = [xfer_script(0, [(8, 1)]), xfer_script(0, [(2, huge)]), xfer_script(1, [(4, 4)])]
+            for order in itertools.permutations(trio):
+                out.append(program(pipe, list(order)))
+            out.append(program(pipe, [xfer_script(0, [(6, 1)]), xfer_script(1, [(2, huge), (2, huge)])]))
     # transfers that are the children (one of them volatile) of an activity's own scope: the owner is cancelled, interrupted
     # or closed at every boundary, also while it waits for its children at the end of its block
     for pipe in ('p1', 'p2'):
